@@ -128,15 +128,25 @@ def _tile_ops(draw, coords, n_dims, backend, link):
             color = draw(st.sampled_from([None, None, None, 0]))
         return {'color': color, 'size': draw(st.sampled_from(SIZES))}
 
+    stored = []  # (coordinate index, dim) written by the history so far: biases the store under test to hit them
+
     def op(under_test):
         kinds = ['store', 'store', 'store_tiles', 'store_tiles', 'remove'] if under_test else \
             ['store', 'store_tiles', 'store_tiles', 'store_tiles', 'remove']
         kind = draw(st.sampled_from(kinds))
+        dim = draw(st.integers(0, n_dims - 1)) if n_dims > 1 else 0
+        first = None
+        if under_test and stored and draw(st.integers(0, 3)) > 0:
+            first, dim = draw(st.sampled_from(stored))
         if kind == 'store_tiles':
             idx = draw(st.lists(st.integers(0, len(coords) - 1), min_size=2, max_size=5, unique=True))
         else:
             idx = [draw(st.integers(0, len(coords) - 1))]
-        o = {'kind': kind, 'dim': draw(st.integers(0, n_dims - 1)) if n_dims > 1 else 0,
+        if first is not None and first not in idx:
+            idx[0] = first
+        if kind != 'remove':
+            stored.extend((i, dim) for i in idx)
+        o = {'kind': kind, 'dim': dim,
              'tiles': [{'coord': list(coords[i]), 'img': image() if kind != 'remove' else None} for i in idx]}
         return o
 
